@@ -27,11 +27,11 @@ def _names(tid):
     k = ST.build(tid)
     names = [s.name for s in k.unique_defined_syms][:6]
     menus = [n.id for n in k.node_iter() if not isinstance(n.item, (K.Symbol, K.Choice))][:2]
-    return names + ["NOPE"] + menus + ["bogus-9", "all"]
+    return names + ["NOPE", "[/NOPE]"] + menus + ["bogus-[/9]", "all"]
 
 
 IVALS = [-3, 0, 7, 300]
-SVALS = ["", "y", "1f", "zz", "0x", "2.5"]
+SVALS = ["", "y", "1f", "zz", "0x", "[/x]"]
 
 
 def pick(lst, idx):
@@ -83,7 +83,7 @@ def mkreq(names, kind, vc, t, vt, i, s, b):
     elif kind == 5:
         req["save"] = v if vt != 3 else None
     elif kind == 6:
-        req["load"] = pick(("/m/other", "/m/missing", "/m/proj"), i)  # existing file, missing file, a directory
+        req["load"] = pick(("/m/other", "/m/[/missing]", "/m/proj"), i)  # existing file, missing file, a directory
     elif kind == 7:
         req["save"] = pick(("/m/saved", "/m/ro/saved", "/m/nodir/x"), i)
     elif kind == 8:
